@@ -944,7 +944,11 @@ class Engine:
 
                     # get the time step
                     store, states = self._process_state(path)
-                    process_timestep = process.calculate_timestep(states)
+                    # a timestep requested in an earlier call, whose
+                    # interval did not fit into that call, stays binding
+                    process_timestep = self.front[path].pop('timestep', None)
+                    if process_timestep is None:
+                        process_timestep = process.calculate_timestep(states)
 
                     if force_complete:
                         # force the process to complete at end_time
@@ -978,6 +982,10 @@ class Engine:
                             self.front[path]['update'] = (EmptyDefer(), store)
                             quiet_paths.append(path)
                     else:
+                        # the interval ends after this call: keep the
+                        # requested timestep for the next call
+                        self.front[path]['timestep'] = process_timestep
+
                         # absolute timestep
                         timestep = future - self.global_time
                         full_step = min(full_step, timestep)
